@@ -15,7 +15,11 @@ CHECKS = {
     "C07": ("harness.checks.klass_props", "C07"),
     "C08": ("harness.checks.klass_props", "C08"),
     "C09": ("harness.checks.klass_props", "C09"),
+    "C10": ("harness.checks.c10", "C10"),
     "C12": ("harness.checks.c12", "C12"),
+    "C13": ("harness.checks.sys_props", "C13"),
+    "C14": ("harness.checks.sys_props", "C14"),
+    "C15": ("harness.checks.sys_props", "C15"),
 }
 
 
